@@ -1,6 +1,6 @@
 """The registered checks.  One function per property; each: rebuild, model check, generate, drive, validate (TLC), triage, evidence."""
 import json, os, random, sys, time, collections
-import vlib, formats, scen, gen_core
+import vlib, formats, scen, gen_core, gen_env
 from vlib import Infra, log
 
 RATE = 8000
@@ -40,7 +40,7 @@ def _distinct(lines):
     return len(seen)
 
 
-def core_check(prop, tier, mcs, lines, design_ref, what, t0, extra_cov=None, timeout=20, module="TraceCore.tla", cfg="TraceCore.cfg"):
+def core_check(prop, tier, mcs, lines, design_ref, what, t0, extra_cov=None, timeout=20, module="TraceCore.tla", cfg="TraceCore.cfg", passes=1):
     """shared tail: drive + validate + confirm + evidence.  mcs: list of model_check results"""
     exe = vlib.build()
     states = sum(m.get("distinct", 0) for m in mcs)
@@ -49,8 +49,12 @@ def core_check(prop, tier, mcs, lines, design_ref, what, t0, extra_cov=None, tim
         if m.get("violation"):
             # a violated invariant of the bounded model means the specification itself is inconsistent: broken check
             raise Infra("bounded model violates its invariants:\n" + vlib.tlc_errors(m["out"]))
-    merged = vlib.drive_and_validate(prop, tier, exe, lines, module=module, cfg=cfg, timeout=timeout)
-    confirmed = vlib.confirm_bad(prop, tier, exe, merged["bad"], module=module, cfg=cfg, timeout=timeout) if merged["bad"] else []
+    merged = vlib.drive_and_validate(prop, tier, exe, lines, module=module, cfg=cfg, timeout=timeout, passes=passes)
+    # the same scenario can be rejected in both passes: confirm each once
+    uniq = {}
+    for b in merged["bad"]:
+        uniq.setdefault((b["script"], b["s"]), b)
+    confirmed = vlib.confirm_bad(prop, tier, exe, list(uniq.values()), module=module, cfg=cfg, timeout=timeout, passes=passes) if uniq else []
     cov = {"states": states + merged["tlc_states"], "transitions": trans + merged["lines"],
            "model_states": states, "model_transitions": trans,
            "traces_validated_against_impl": merged["scenarios"], "evaluations": merged["events"],
@@ -253,7 +257,102 @@ def c09(tier):
                       t0, extra_cov={"tlc_histories": nh, "history_depth": depth})
 
 
-REGISTRY = {"C01": c01, "C04": c04, "C05": c05, "C06": c06, "C08": c08, "C09": c09}
+def c07(tier):
+    t0 = time.time()
+    exe = vlib.build()
+    rng = random.Random(vlib.SEED)
+    S = scen.Script()
+    chans = (1, 2) if tier == "quick" else (1, 2, 3)
+    for fmt, ch in _fmts(exe, tier, chans):
+        B = scen.block_hint(fmt, ch, RATE)
+        Ns = [2 * B + 1 if B > 1 else 23] if tier == "quick" else [1, B + 1, 2 * B + 1 if B > 1 else 23, 4100]
+        for N in Ns:
+            gen_env.c07_scenarios(S, fmt, ch, RATE, N, rng, nparts=5 if tier == "quick" else 9,
+                                  Ts=None if tier == "quick" else list(dict.fromkeys([gen_core.type_for(fmt), "s", "f"])))
+    mcs = [gen_core.mc_rw("W", 0, tag=tier[0], maxwrites=2)]
+    return core_check("C07", tier, mcs, S.lines, "DESIGN.md section 6 C07",
+                      "every writable format x channels: the same sample sequence written under several partitions (one call, 1+rest, rest+1, all ones, random odd pieces incl. > staging buffer), item and frame variants mixed, SFC_UPDATE_HEADER_NOW interleaved; the whole script executed twice in separate processes; byte identity decided by TraceCore (SameBytesOK within a run, CanonOK across processes), clock pinned",
+                      t0, passes=2)
+
+
+def c11(tier):
+    t0 = time.time()
+    exe = vlib.build()
+    rng = random.Random(vlib.SEED)
+    S = scen.Script()
+    chans = (1, 2) if tier == "quick" else (1, 2, 3)
+    for fmt, ch in _fmts(exe, tier, chans):
+        if scen.major(fmt) == scen.SD2 or scen.sub(fmt) in (0x70, 0x71, 0x72, 0x73):
+            continue          # SD2 keeps its header in a second file; ALAC is assembled at close (outside the guarantee)
+        for auto in (0, 1):
+            for rep in range(1 if tier == "quick" else 3):
+                gen_env.c11_scenarios(S, fmt, ch, RATE, rng, auto, nsteps=3 if tier == "quick" else 6)
+    mcs = [gen_core.mc_rw("W", 0, tag=tier[0], maxwrites=2)]
+    return core_check("C11", tier, mcs, S.lines, "DESIGN.md section 6 C11",
+                      "every format with a vio-writable header (ALAC and SD2 excluded) x channels x {explicit SFC_UPDATE_HEADER_NOW, auto mode}: after every update the backing store is copied and opened by a second handle: parameters, frame count = whole blocks of the frames written so far (FramesInImage), data = prefix (shared content), and the finished file is byte identical to a twin written without updates",
+                      t0)
+
+
+def c19(tier):
+    t0 = time.time()
+    exe = vlib.build()
+    rng = random.Random(vlib.SEED)
+    S = scen.Script()
+    allf = [(f, c) for f, c in _fmts(exe, tier, (1, 2)) if scen.major(f) != scen.SD2]
+    fam = [(0x10012, 1), (0x10013, 2), (0x10020, 1), (0x30030, 1), (0x30031, 1), (0x10022, 1), (0x180070, 2), (0x40021, 1), (0x20042, 1), (0x50003, 2), (0x110002, 1), (0xf0051, 1), (0x10010, 2), (0x10006, 2), (0x20003, 1)]
+    n = 40 if tier == "quick" else 300
+    for i in range(n):
+        k = rng.choice([2, 2, 3, 4, 8])
+        if i % 3 == 0:
+            f = rng.choice(fam)
+            pick = [f] * k           # same codec in every handle
+        elif i % 3 == 1:
+            pick = [rng.choice(fam) for _ in range(k)]
+        else:
+            pick = [rng.choice(allf) for _ in range(k)]
+        gen_env.c19_scenario(S, pick, RATE, rng, "rr" if i % 4 == 0 else "random")
+    for fmt, ch in (fam if tier == "quick" else allf):
+        gen_env.c19_readers(S, fmt, ch, RATE, rng, nreaders=3)
+    mcs = [gen_core.mc_rw("RW", 2, tag=tier[0], maxwrites=1)]
+    return core_check("C19", tier, mcs, S.lines, "DESIGN.md section 6 C19",
+                      "2..8 handles on distinct backing stores (same-codec sets, codec-family mixes, random formats), calls merged at random or round robin, each handle validated against its own model state; then every workload again alone: same data and byte identical files (SameBytesOK); plus several interleaved readers of one file sharing the content map (decoder state per handle)",
+                      t0)
+
+
+def c14(tier):
+    t0 = time.time()
+    exe = vlib.build()
+    rng = random.Random(vlib.SEED)
+    S = scen.Script()
+    for fmt, ch in _fmts(exe, tier, (1, 2) if tier == "quick" else (1, 2, 3)):
+        gen_env.c14_scenario(S, fmt, ch, RATE, rng)
+    mcs = [gen_core.mc_rw("R", 2, tag=tier[0])]
+    return core_check("C14", tier, mcs, S.lines, "DESIGN.md section 6 C14",
+                      "every writable format x channels: written through {vio, fd close_desc=1, fd close_desc=0, path} (byte identity by SameBytesOK, descriptor closed iff close_desc by CloseOK) and read back through {vio, fd, fdk, path, embedded at offset 44 and 4096 with leading/trailing junk, pipe for WAV/AIFF/AU granular}: same info and samples (shared content), garbage fails the same way on every route",
+                      t0)
+
+
+def c16(tier):
+    t0 = time.time()
+    exe = vlib.build()
+    rng = random.Random(vlib.SEED)
+    S = scen.Script()
+    fmts = [(f, c) for f, c in _fmts(exe, tier, (1,)) if scen.major(f) != scen.SD2]
+    if tier == "quick":
+        fmts = fmts[vlib.SEED % 2::2]
+    cuts = list(range(0, 64, 3)) + list(range(64, 400, 29)) if tier == "quick" else list(range(0, 700))
+    gen_env.c16_scenarios(S, exe, fmts, RATE, rng, cuts)
+    # every earlier kind of scenario also ends with a ledger event: add a sample of them
+    for fmt, ch in fmts[:20]:
+        gen_core.invalid_calls(S, fmt, ch, RATE, "rw", rng)
+        gen_core.rdwr_random(S, fmt, ch, RATE, rng, steps=30, pre=10)
+    mcs = [gen_core.mc_rw("R", 2, tag=tier[0])]
+    return core_check("C16", tier, mcs, S.lines, "DESIGN.md section 6 C16",
+                      "heap (ASan allocator statistics minus the driver's own blocks), descriptor table and private TMPDIR compared before the first and after the last call of every scenario (EndOK), and around every failing open (OpenFailedOK): valid files truncated at every cut point (failures at each parse depth) on vio/fd/path routes, handles closed without I/O, handles with failed calls",
+                      t0)
+
+
+REGISTRY = {"C01": c01, "C07": c07, "C11": c11, "C19": c19, "C14": c14, "C16": c16, "C04": c04, "C05": c05, "C06": c06, "C08": c08, "C09": c09}
 
 
 def replay(prop, path):
